@@ -34,14 +34,23 @@ type Obj struct {
 	E     *enum.Enum
 	R     *libregex.Schema
 	AddRes string
+	Types map[string]jschema.Schema // the type objects added to a schema object
 }
 
-func Build(sp *Spec) *Obj {
+func Build(sp *Spec) *Obj { return BuildSharing(sp, nil) }
+
+// BuildSharing builds a new object; a schema object reuses the type objects of from (an object
+// of the same spec) instead of creating its own.
+func BuildSharing(sp *Spec, from *Obj) *Obj {
 	o := &Obj{Spec: sp}
 	switch sp.Kind {
 	case "schema":
 		var add lib.Res
-		o.S, add = lib.Build(sp.Schema)
+		var shared map[string]jschema.Schema
+		if from != nil {
+			shared = from.Types
+		}
+		o.S, add, o.Types = lib.BuildSharing(sp.Schema, shared)
 		o.AddRes = canonRes(add)
 	case "json":
 		if sp.Allow {
